@@ -322,6 +322,31 @@ def case_golomb_two_marks_symmetry_breaking():
     return got == [[1, 1], [3, 3], [6, 6]], f"optimal lengths [without, with] symmetry breaking for 2, 3, 4 marks: {got}"
 
 
+def case_golomb_own_consistency_loses_rulers():
+    """The Golomb model's own consistency algorithm runs BEFORE bound consistency at every node and took the lower bound of every
+    distance variable of the first rows for a USED distance, also of variables that are not instantiated yet (the pinned tree:
+    marks 0, 6, 9, 13 given, length <= 25, symmetry breaking: plain bound consistency enumerates the rulers (0,6,9,13,14,24) and
+    (0,6,9,13,14,25), the model's own algorithm none — d(1,2) is still [1, ..] when it runs, so 1 counts as used and d(3,4) = 1
+    is pruned).  The solution sets under both algorithms must be equal."""
+    from nucs.examples.golomb.golomb_problem import GolombProblem, golomb_consistency_algorithm, index
+    from nucs.solvers.backtrack_solver import BacktrackSolver
+    from nucs.solvers.consistency_algorithms import register_consistency_algorithm
+
+    g = register_consistency_algorithm(golomb_consistency_algorithm)
+    out = []
+    for n, marks, cap in ((6, [0, 6, 9, 13], 25), (6, [0, 4, 6, 7], 23), (6, [0, 4], 31)):
+        sets = []
+        for alg in (0, g):
+            p = GolombProblem(n, True)
+            for j in range(1, len(marks)):
+                p.shr_domains_lst[index(n, 0, j)] = [marks[j], marks[j]]
+            lo, hi = p.shr_domains_lst[index(n, 0, n - 1)]
+            p.shr_domains_lst[index(n, 0, n - 1)] = [lo, min(hi, cap)]
+            sets.append(sorted(tuple(int(x) for x in s[: n - 1]) for s in BacktrackSolver(p, consistency_alg_idx=alg, log_level="ERROR").solve()))
+        out.append((len(sets[0]), len(sets[1]), sets[0] == sets[1]))
+    return all(o[2] for o in out) and out[0][0] == 2, f"(rulers under bound consistency, under the own algorithm, equal): {out}"
+
+
 CASES = {
     "affine_eq_ground": (case_affine_eq_ground, ["C06", "C01"]),
     "affine_zero_coeffs": (case_affine_zero_coeffs, ["C06"]),
@@ -340,13 +365,14 @@ CASES = {
     "add_variable_shared_domains": (case_add_variable_shared_domains, ["C13", "C01"]),
     "golomb_own_consistency_enumeration": (case_golomb_own_consistency_enumeration, ["C20"]),
     "golomb_two_marks_symmetry_breaking": (case_golomb_two_marks_symmetry_breaking, ["C20"]),
+    "golomb_own_consistency_loses_rulers": (case_golomb_own_consistency_loses_rulers, ["C20"]),
 }
 
 
 def run(names=None):
     out = {}
     for n, (f, props) in CASES.items():
-        if names and n not in names:
+        if names is not None and n not in names:
             continue
         try:
             import nv
